@@ -172,10 +172,7 @@ theorem mid_queue {p : Par} {s : Sys} {q j : Nat} {acc : Bytes} (h : Mid p s q j
 /-- `_ack_block`, with the frame spelled out -/
 theorem ackBlock_eq (E : Env) (s : Sys) :
     ackBlock E s =
-      if s.cl.ackseq = 127 then
-        { sendReq E s (ackFrame s.cl.ackseq) with cl := { (sendReq E s (ackFrame s.cl.ackseq)).cl with ackseq := 0 } }
-      else sendReq E s (ackFrame s.cl.ackseq) := by
-  simp only [ackBlock, sendReq_cl, UPLOAD_BLKSIZE]
+      { sendReq E s (ackFrame s.cl.ackseq) with cl := { (sendReq E s (ackFrame s.cl.ackseq)).cl with ackseq := 0 } } := by
   rfl
 
 /-- a request answered by a run of segments starting at global segment `base` -/
@@ -374,7 +371,7 @@ theorem readStep_last (p : Par) (hc : ChanOK p) (s : Sys) (q j : Nat) (acc : Byt
     refine ⟨_, rfl, ?_⟩
     rw [ackBlock_eq, hsend]
     have hl' : reqFrames { s with log := log } = ackFrame (j + 1) :: reqFrames s := hlog
-    split <;> exact ⟨rfl, ⟨rfl, rfl, rfl, rfl, rfl⟩, ⟨rfl, rfl, rfl⟩, hl'⟩
+    exact ⟨rfl, ⟨rfl, rfl, rfl, rfl, rfl⟩, ⟨rfl, rfl, rfl⟩, hl'⟩
   unfold readStep
   rw [hrr]
   simp only [andThen, seqCheck, List.getD_cons_zero, b5, h.ackseq, if_true]
